@@ -530,6 +530,12 @@ class Gen:
         self.pool.append(dict(ref=["in", len(self.inputs) - 1], val=val, fill=spec["fill"], ok=True))
         return len(self.pool) - 1
 
+    def add_spec(self, spec):
+        self.inputs.append(spec)
+        val = vlib.spec_dense(spec, dtype=spec.get("dtype", "int64"))
+        self.pool.append(dict(ref=["in", len(self.inputs) - 1], val=val, fill=spec["fill"], ok=True))
+        return len(self.pool) - 1
+
     def pick(self, pred=lambda e: True):
         c = [i for i, e in enumerate(self.pool) if e["ok"] and pred(e)]
         return self.rng.choice(c) if c else None
@@ -600,11 +606,13 @@ class Gen:
             return js, ctx
         return None, ctx
 
-    def try_step(self, name):
+    def try_step(self, name, force_p=None, force_args=None):
         rng = self.rng
         o = OPS[name]
         np = _np()
-        if o["arity"] == 0:
+        if force_args is not None:
+            args = list(force_args)
+        elif o["arity"] == 0:
             args = []
         else:
             first = self.pick(lambda e: e["val"].ndim >= o["minnd"] and (not o["zero"] or e["fill"] == 0))
@@ -615,7 +623,7 @@ class Gen:
                     return False
             args = [first]
         ctx = {"wild": self.wild}
-        if o["second"]:
+        if o["second"] and force_args is None:
             more, c2 = self.second_operand(o, args[0])
             if more is None:
                 return False
@@ -623,7 +631,7 @@ class Gen:
             ctx.update(c2)
         xs = [self.pool[i]["val"] for i in args]
         ctx["fills"] = [self.pool[i]["fill"] for i in args]
-        p = o["gen"](rng, xs, ctx)
+        p = force_p if force_p is not None else o["gen"](rng, xs, ctx)
         if p is None:
             return False
         val = None
@@ -677,7 +685,7 @@ class Gen:
 
 def gen_sweep(rng, tier):
     """(a): one-step programs, every operation of the catalogue, operands in every format"""
-    reps = 10 if tier == "quick" else 60
+    reps = 8 if tier == "quick" else 60
     cases = []
     for name in OPS:
         for k in range(reps):
@@ -692,6 +700,74 @@ def gen_sweep(rng, tier):
                     c["sweep"] = True
                     cases.append(c)
                     break
+    return cases
+
+
+def dense_spec(arr, fill, fmt, caxes=None):
+    import itertools
+    shape = [len(arr)] if not isinstance(arr[0], list) else None
+    np = _np()
+    a = np.array(arr)
+    pos = [ix for ix in itertools.product(*[range(d) for d in a.shape]) if a[ix] != fill]
+    return {"shape": list(a.shape), "coords": [list(p) for p in pos], "data": [int(a[p]) for p in pos], "fill": fill,
+            "format": fmt, "caxes": caxes}
+
+
+def gen_directed(rng, tier):
+    """boundary-directed one-step cases: (i) index tuples mixing integers, None, full/empty/reversed slices and an
+    index array on 2-d and 3-d operands of every format; (ii) operands whose stored values cancel (v, -v in a row)
+    under reductions, contractions and element-wise differences — the result must not store the fill value"""
+    import itertools
+    cases = []
+    items = [["i", 0], ["i", -1], ["n"], ["s", None, None, None], ["s", 0, 0, None], ["s", None, None, -1], ["a", [1, 0]]]
+    fmts = [("coo", None), ("gcxs", [0]), ("gcxs", [1]), ("dok", None)]
+    arrs = {2: [[1, 2, 0], [0, 3, 4]], 3: [[[1, 0], [2, 3], [0, 0]], [[0, 4], [0, 0], [5, 6]]]}
+    idxs = []
+    for nd in (2, 3):
+        for ln in range(1, nd + 2):
+            for tup in itertools.product(items, repeat=ln):
+                if sum(1 for t in tup if t[0] != "n") > nd or sum(1 for t in tup if t[0] == "a") > 1 \
+                        or sum(1 for t in tup if t[0] == "n") > 1:
+                    continue
+                idxs.append((nd, [list(t) for t in tup]))
+    want = 200 if tier == "quick" else len(idxs) * 2
+    picks = idxs if want >= len(idxs) else rng.sample(idxs, want)
+    for k, (nd, idx) in enumerate(picks):
+        fmt, ca = fmts[k % 4] if tier == "quick" else rng.choice(fmts)
+        if fmt == "gcxs" and nd == 3:
+            ca = rng.choice([[0], [1], [2], [0, 1], [0, 2], [1, 2]])
+        g = Gen(rng, wild=True)
+        g.add_spec(dense_spec(arrs[nd], 0, fmt, ca))
+        if g.try_step("getitem", force_p={"idx": idx}, force_args=[0]):
+            c = g.program()
+            c["sweep"] = True
+            cases.append(c)
+    canc = [[-3, 3, 0], [0, -1, -2], [2, -2, 0]]
+    steps = [("sum", {"axis": 1, "keepdims": False}), ("sum", {"axis": None, "keepdims": False}), ("sum", {"axis": [0, 1], "keepdims": True}),
+             ("nansum", {"axis": 1, "keepdims": False}), ("einsum_tr", {"s": "ij->i"}), ("einsum_tr", {"s": "ij->j"}),
+             ("einsum_tr", {"s": "ij->"}), ("mul_scalar", {"c": 0}), ("matmul_dense", {"b": [[1], [1], [1]]}),
+             ("tensordot_dense", {"b": [[1], [1], [1]], "rt": "coo"}), ("tensordot_dense", {"b": [[1], [1], [1]], "rt": "gcxs"}),
+             ("rmatmul_dense", {"a": [[1, 1, 1]]}), ("clip", {"lo": 0, "hi": 0}), ("where_scalar", {"c": 0}),
+             ("round", {}), ("astype", {"dt": "bool"}), ("gt_scalar", {"c": 5}), ("triu", {"k": 3}), ("diagonal", {"off": 0, "a1": 0, "a2": 1})]
+    for fmt, ca in fmts:
+        for name, p in steps:
+            g = Gen(rng, wild=True)
+            g.add_spec(dense_spec(canc, 0, fmt, ca))
+            if g.try_step(name, force_p=p, force_args=[0]):
+                c = g.program()
+                c["sweep"] = True
+                cases.append(c)
+        for name, second in (("subtract", canc), ("add", [[3, -3, 0], [0, 1, 2], [-2, 2, 0]]), ("matmul", [[1, 0], [1, 0], [1, 1]]),
+                             ("dot", [[1, 0], [1, 0], [1, 1]]), ("einsum_mm", [[1, 0], [1, 0], [1, 1]]), ("multiply", [[0, 0, 1], [1, 0, 0], [0, 0, 1]]),
+                             ("kron", [[1, -1]])):
+            for fmt2, ca2 in (fmts if tier != "quick" else [fmts[(len(cases)) % 4]]):
+                g = Gen(rng, wild=True)
+                g.add_spec(dense_spec(canc, 0, fmt, ca))
+                g.add_spec(dense_spec(second, 0, fmt2, ca2))
+                if g.try_step(name, force_p={}, force_args=[0, 1]):
+                    c = g.program()
+                    c["sweep"] = True
+                    cases.append(c)
     return cases
 
 
@@ -719,7 +795,7 @@ def gen_programs(rng, tier):
 
 def gen_ctor(rng, tier):
     """(c): COO(coords, data, shape, fill_value, sorted=, has_duplicates=, prune=) on raw inputs"""
-    n = 600 if tier == "quick" else 6000
+    n = 500 if tier == "quick" else 6000
     cases = []
     for i in range(n):
         nd = rng.choice([1, 1, 2, 2, 3]) if i % 40 else 0
@@ -826,10 +902,13 @@ CODE_TEXT = {1: "raw result not in canonical/self-consistent form", 5: "GCXS row
 
 def campaign(build, tier, seed, report, budget=1):
     rng = random.Random(seed)
-    cases = gen_sweep(rng, tier) + gen_programs(rng, tier) + gen_ctor(rng, tier) + gen_csr(rng, tier)
+    cases = gen_directed(rng, tier) + gen_sweep(rng, tier) + gen_programs(rng, tier) + gen_ctor(rng, tier) + gen_csr(rng, tier)
     if budget > 1:
         cases += gen_programs(random.Random(seed + 1), tier) + gen_sweep(random.Random(seed + 2), tier)
+    import time
+    t_gen = time.time()
     res = vlib.run_impl("props.c06", "impl_run", cases, workers=6, per_case_timeout=40.0)
+    t_impl = time.time()
     viol = []
     tags = {}
 
@@ -881,6 +960,8 @@ def campaign(build, tier, seed, report, budget=1):
             opnd = r["inputs"][st["args"][0][1]] if st["args"][0][0] == "in" else r["results"][st["args"][0][1]]
             if "n" in kinds and "i" in kinds and opnd.get("k") == "gcxs" and len(opnd["shape"]) >= 2:
                 clause = "gcxs_getitem_newaxis_with_int_malformed"
+        if st["op"] in ("einsum_tr", "einsum_mm") and code in (2, 3):
+            clause = "einsum_result_not_pruned"
         viol.append({"property": "C06", "op": st["op"], "kind": "value", "clause": clause, "code": code,
                      "what": CODE_TEXT.get(code, str(code)), "step": si, "program_depth": len(c["steps"]),
                      "case": {"inputs": c["inputs"], "steps": c["steps"][:si + 1]},
@@ -943,6 +1024,7 @@ def campaign(build, tier, seed, report, budget=1):
     except Exception as ex:  # noqa: BLE001
         site_info = {"error": str(ex)[-300:]}
     cov = report["coverage"]
+    cov["timing_s"] = {"implementation": round(t_impl - t_gen, 1), "coq_judges": round(time.time() - t_impl, 1)}
     cov["evaluations"] = len(lits) + len(clits) + len(klits)
     cov["distinct_nontrivial"] = len(distinct) + len({vlib.digest(cases[i]) for i in cwhere}) + len({vlib.digest(cases[i]) for i in kwhere})
     cov["rule"] = ("every step result of (a) one-step programs for each of the %d catalogue operations x operand formats "
